@@ -45,8 +45,20 @@ def spec(tier, seed):
         inst.append(apply_inst("c04a", n, sh, ls, f, d, ["rollback"], "C04a modify: apply + rollback, one hunk, symbolic stated line", mem_gb=9, timeout=1800))
     for (n, sh, ls, f, d) in ch2:
         inst.append(apply_inst("c04a", n, sh, ls, f, d, ["rollback"], "C04a modify: apply + rollback, two hunks", mem_gb=15, timeout=2400))
+    from . import _mir
+    mir_vcs = [
+        {"name": "ModifiedFiles::rollback: undo in the recorded direction", "function": "ModifiedFiles::rollback", "target": "bin",
+         "run": lambda f, v, w: _mir.vc_rollback_direction(f, v, w, r"::rollback$", "c04d1", sig=r"_1: &mut ModifiedFiles")},
+        {"name": "save_files_worker: undo in the recorded direction", "function": "parallel::save_files_worker", "target": "bin",
+         "run": lambda f, v, w: _mir.vc_rollback_direction(f, v, w, r"^save_files_worker$", "c04d2")},
+        {"name": "diagnostics::test_apply_with_fuzzes: undo in the recorded direction", "function": "diagnostics::test_apply_with_fuzzes", "target": "bin",
+         "run": lambda f, v, w: _mir.vc_rollback_direction(f, v, w, r"^test_apply_with_fuzzes$", "c04d3")},
+        {"name": "diagnostics::test_apply_after_reverting_other: undo in the recorded direction", "function": "diagnostics::test_apply_after_reverting_other", "target": "bin",
+         "run": lambda f, v, w: _mir.vc_rollback_direction(f, v, w, r"^test_apply_after_reverting_other$", "c04d4")},
+    ]
     return {
         "instances": inst,
+        "mir_vcs": mir_vcs,
         "level": "model_checking",
         "functions": ["TextFilePatch::rollback", "TextFilePatch::apply", "apply_internal (permission bookkeeping)", "apply_modify", "apply_create",
                       "apply_delete", "try_apply_hunk (ApplyMode::Rollback)", "ModifiedFile::move_out", "ModifiedFile::move_in",
@@ -63,3 +75,8 @@ def spec(tier, seed):
         "outside": ["ModifiedFiles::rollback's HashMap lookups", "on-disk effects of a rollback (save is I/O)", "stacks deeper than one application are covered by composition only"],
         "explanation": "bounded model checking: apply then rollback is the identity on (content, deleted, permissions) for every content/permission value inside each concrete shape; rollback's panic is a checked property",
     }
+
+
+def replay_candidate(v, work, log):
+    from .. import scenarios
+    return scenarios.replay_for("C04", v, work, log)
